@@ -3604,7 +3604,8 @@ class NonTensorStack(LazyStackedTensorDict):
     def to_dict(
         self, *, retain_none: bool = True, convert_tensors: bool = False
     ) -> dict[str, Any]:
-        return self.tolist(convert_tensors=convert_tensors)
+        # the entry of a stack in a dictionary is its (nested) list of values
+        return self.tolist()
 
     def to_tensordict(self, *, retain_none: bool | None = None):
         return self
